@@ -45,4 +45,175 @@ theorem beVal_beN32 (v : Nat) (h : v < 256 ^ 32) : beVal (beN 32 v) = v := by
   rw [beVal_beN_mod]; exact Nat.mod_eq_of_lt h
 
 
+theorem readVar_truncated (a : Bytes) (m : Nat) (ha : a.length < 65536) (hm : m < 2 + a.length) :
+    ∃ e, readVar ((varField a).take m) = .error e := by
+  unfold readVar
+  by_cases h2 : m < 2
+  · have : ((varField a).take m).length < 2 := by simp [List.length_take]; omega
+    rw [if_pos this]; exact ⟨_, rfl⟩
+  · have hl : ¬ ((varField a).take m).length < 2 := by
+      simp [List.length_take, varField, be16, beN]; omega
+    rw [if_neg hl]
+    have htake : ((varField a).take m).take 2 = be16 a.length := by
+      simp [varField, be16, beN, List.take_take]
+      have : min 2 m = 2 := by omega
+      simp [this, List.take]
+    have hv : beVal (be16 a.length) = a.length := by
+      simp only [be16, beN, beVal, List.length_cons, List.length_nil, UInt8.toNat_ofNat']
+      omega
+    simp only [htake, hv]
+    have : (((varField a).take m).drop 2).length < a.length := by
+      simp [List.length_drop, List.length_take, varField, be16, beN]; omega
+    rw [if_pos this]; exact ⟨_, rfl⟩
+
+
+/-- the fixed 79-byte prefix of the blob and its three length-prefixed trailer fields -/
+def fixedPart (f : BlobFields) : Bytes :=
+  csMagic ++ (be16 csVersion ++ ([UInt8.ofNat f.flags] ++ (beN 32 f.key ++ (ivBytes f.encIV ++
+    (ivBytes f.decIV ++ (be32 f.encCtr ++ be32 f.decCtr))))))
+def trailer (f : BlobFields) : Bytes := varField f.fs ++ (varField f.fr ++ varField f.peer)
+
+def decodeTrailer (t : Bytes) : Except Err (Bytes × Bytes × Bytes) :=
+  match readVar t with
+  | .error e => .error e
+  | .ok (a, r1) =>
+    match readVar r1 with
+    | .error e => .error e
+    | .ok (b, r2) =>
+      match readVar r2 with
+      | .error e => .error e
+      | .ok (c, _) => .ok (a, b, c)
+
+theorem encodeBlob_split (f : BlobFields) : encodeBlob f = fixedPart f ++ trailer f := by
+  simp [encodeBlob, fixedPart, trailer, List.append_assoc]
+
+theorem fixedPart_len (f : BlobFields) (wf : WfBlob f) : (fixedPart f).length = 79 := by
+  have := ivBytes_len f.encIV wf.et
+  have := ivBytes_len f.decIV wf.dt
+  simp only [fixedPart, List.length_append, csMagic_len, List.length_cons, List.length_nil, *]
+  simp [be16, be32]
+
+/-- parsing a blob whose fixed part is well formed reduces to parsing its trailer -/
+theorem decode_fixed (f : BlobFields) (wf : WfBlob f) (t : Bytes) :
+    decodeBlob (fixedPart f ++ t) =
+      match decodeTrailer t with
+      | .error e => .error e
+      | .ok (a, b, c) => .ok ⟨f.flags, f.key, f.encIV, f.decIV, f.encCtr, f.decCtr, a, b, c⟩ := by
+  obtain ⟨w1, w2, w3, w4, w5, w6, w7, w8, w9, w10, w11⟩ := wf
+  have lm := csMagic_len
+  have lv : (be16 csVersion).length = 2 := by simp [be16]
+  have lk : (beN 32 f.key).length = 32 := by simp
+  have le := ivBytes_len f.encIV w4
+  have ld := ivBytes_len f.decIV w6
+  have l4a : (be32 f.encCtr).length = 4 := by simp [be32]
+  have l4b : (be32 f.decCtr).length = 4 := by simp [be32]
+  -- right-nested form of the blob
+  have hb : fixedPart f ++ t = csMagic ++ (be16 csVersion ++ ([UInt8.ofNat f.flags] ++ (beN 32 f.key ++ (ivBytes f.encIV ++
+      (ivBytes f.decIV ++ (be32 f.encCtr ++ (be32 f.decCtr ++ t))))))) := by
+    simp [fixedPart, List.append_assoc]
+  have hlen : ¬ ((fixedPart f ++ t)).length < csFixedLen := by
+    rw [hb]; simp only [List.length_append, lm, lv, lk, le, ld, l4a, l4b, List.length_cons, List.length_nil]
+    unfold csFixedLen stream.cryptoStateFixedLen; omega
+  unfold decodeBlob
+  rw [if_neg hlen]
+  have t4 : ((fixedPart f ++ t)).take 4 = csMagic := by rw [hb]; exact List.take_left' lm
+  rw [if_neg (by rw [t4]; exact fun h => h rfl)]
+  have d4 : ((fixedPart f ++ t)).drop 4 = be16 csVersion ++ ([UInt8.ofNat f.flags] ++ (beN 32 f.key ++ (ivBytes f.encIV ++
+      (ivBytes f.decIV ++ (be32 f.encCtr ++ (be32 f.decCtr ++ t)))))) := by
+    rw [hb]; exact List.drop_left' lm
+  have hv : beVal ((((fixedPart f ++ t)).drop 4).take 2) = csVersion := by
+    rw [d4, List.take_left' lv]; exact beVal_be16 _ (by unfold csVersion stream.cryptoStateVersion; omega)
+  rw [if_neg (by rw [hv]; exact fun h => h rfl)]
+  have d6 : ((fixedPart f ++ t)).drop 6 = [UInt8.ofNat f.flags] ++ (beN 32 f.key ++ (ivBytes f.encIV ++
+      (ivBytes f.decIV ++ (be32 f.encCtr ++ (be32 f.decCtr ++ t))))) := by
+    have : ((fixedPart f ++ t)).drop 6 = (((fixedPart f ++ t)).drop 4).drop 2 := by rw [List.drop_drop]
+    rw [this, d4]; exact List.drop_left' lv
+  have d7 : ((fixedPart f ++ t)).drop 7 = beN 32 f.key ++ (ivBytes f.encIV ++
+      (ivBytes f.decIV ++ (be32 f.encCtr ++ (be32 f.decCtr ++ t)))) := by
+    have : ((fixedPart f ++ t)).drop 7 = (((fixedPart f ++ t)).drop 6).drop 1 := by rw [List.drop_drop]
+    rw [this, d6]; rfl
+  have d39 : ((fixedPart f ++ t)).drop 39 = ivBytes f.encIV ++
+      (ivBytes f.decIV ++ (be32 f.encCtr ++ (be32 f.decCtr ++ t))) := by
+    have : ((fixedPart f ++ t)).drop 39 = (((fixedPart f ++ t)).drop 7).drop 32 := by rw [List.drop_drop]
+    rw [this, d7]; exact List.drop_left' lk
+  have d55 : ((fixedPart f ++ t)).drop 55 =
+      ivBytes f.decIV ++ (be32 f.encCtr ++ (be32 f.decCtr ++ t)) := by
+    have : ((fixedPart f ++ t)).drop 55 = (((fixedPart f ++ t)).drop 39).drop 16 := by rw [List.drop_drop]
+    rw [this, d39]; exact List.drop_left' le
+  have d71 : ((fixedPart f ++ t)).drop 71 =
+      be32 f.encCtr ++ (be32 f.decCtr ++ t) := by
+    have : ((fixedPart f ++ t)).drop 71 = (((fixedPart f ++ t)).drop 55).drop 16 := by rw [List.drop_drop]
+    rw [this, d55]; exact List.drop_left' ld
+  have d75 : ((fixedPart f ++ t)).drop 75 = be32 f.decCtr ++ t := by
+    have : ((fixedPart f ++ t)).drop 75 = (((fixedPart f ++ t)).drop 71).drop 4 := by rw [List.drop_drop]
+    rw [this, d71]; exact List.drop_left' l4a
+  have d79 : ((fixedPart f ++ t)).drop 79 = t := by
+    have : ((fixedPart f ++ t)).drop 79 = (((fixedPart f ++ t)).drop 75).drop 4 := by rw [List.drop_drop]
+    rw [this, d75]; exact List.drop_left' l4b
+  simp only []
+  rw [d6, d7, d39, d55, d71, d75, d79]
+  rw [List.take_left' lk, List.take_left' le, List.take_left' ld, List.take_left' l4a, List.take_left' l4b]
+  rw [beVal_beN32 _ w2, ivOfBytes_ivBytes _ w3 w4, ivOfBytes_ivBytes _ w5 w6, beVal_be32' _ w7, beVal_be32' _ w8]
+  have hfl : ((([UInt8.ofNat f.flags] ++ (beN 32 f.key ++ (ivBytes f.encIV ++ (ivBytes f.decIV ++ (be32 f.encCtr ++
+      (be32 f.decCtr ++ t)))))).take 1).headD 0).toNat = f.flags := by
+    simp only [List.singleton_append, List.take_succ_cons, List.take_zero, List.headD_cons]
+    simp [UInt8.toNat_ofNat']; omega
+  rw [hfl]
+  unfold decodeTrailer
+  cases readVar t with
+  | error e => rfl
+  | ok r =>
+    obtain ⟨a, r1⟩ := r
+    simp only []
+    cases readVar r1 with
+    | error e => rfl
+    | ok r' =>
+      obtain ⟨b, r2⟩ := r'
+      simp only []
+      cases readVar r2 with
+      | error e => rfl
+      | ok r'' => rfl
+
+theorem decodeTrailer_trailer (f : BlobFields) (wf : WfBlob f) :
+    decodeTrailer (trailer f) = .ok (f.fs, f.fr, f.peer) := by
+  unfold decodeTrailer trailer
+  rw [readVar_varField _ _ wf.fs]
+  simp only []
+  rw [readVar_varField _ _ wf.fr]
+  simp only []
+  have hp : readVar (varField f.peer) = .ok (f.peer, []) := by
+    have := readVar_varField f.peer [] wf.peer
+    simpa using this
+  rw [hp]
+
+
+theorem varField_len (a : Bytes) : (varField a).length = 2 + a.length := by simp [varField, be16]
+
+/-- a strictly truncated trailer does not parse -/
+theorem decodeTrailer_truncated (a b c : Bytes) (ha : a.length < 65536) (hb : b.length < 65536) (hc : c.length < 65536)
+    (m : Nat) (hm : m < (varField a ++ (varField b ++ varField c)).length) :
+    ∃ e, decodeTrailer ((varField a ++ (varField b ++ varField c)).take m) = .error e := by
+  unfold decodeTrailer
+  by_cases h1 : m < (varField a).length
+  · rw [List.take_append_of_le_length (Nat.le_of_lt h1)]
+    obtain ⟨e, he⟩ := readVar_truncated a m ha (by rw [varField_len] at h1; exact h1)
+    rw [he]; exact ⟨e, rfl⟩
+  · obtain ⟨m1, rfl⟩ : ∃ m1, m = (varField a).length + m1 := ⟨m - (varField a).length, by omega⟩
+    rw [List.take_length_add_append, readVar_varField _ _ ha]
+    simp only []
+    have hm1 : m1 < (varField b ++ varField c).length := by
+      simp only [List.length_append] at hm ⊢; omega
+    by_cases h2 : m1 < (varField b).length
+    · rw [List.take_append_of_le_length (Nat.le_of_lt h2)]
+      obtain ⟨e, he⟩ := readVar_truncated b m1 hb (by rw [varField_len] at h2; exact h2)
+      rw [he]; exact ⟨e, rfl⟩
+    · obtain ⟨m2, rfl⟩ : ∃ m2, m1 = (varField b).length + m2 := ⟨m1 - (varField b).length, by omega⟩
+      rw [List.take_length_add_append, readVar_varField _ _ hb]
+      simp only []
+      have hm2 : m2 < (varField c).length := by
+        simp only [List.length_append] at hm1; omega
+      obtain ⟨e, he⟩ := readVar_truncated c m2 hc (by rw [varField_len] at hm2; exact hm2)
+      rw [he]; exact ⟨e, rfl⟩
+
+
 end Cedar.C15
